@@ -89,7 +89,7 @@ static void env_all()
 // ------------------------------------------------------------------ multi-argument construction forms
 // emplace(args...) and make_optional<T>(args...) (the variadic constructor is compiled out in the library) must build the payload T(args...): payloads
 // with an initializer_list constructor tell T(args...) from T{args...}
-static const int NFORM = 9;
+static const int NFORM = 12;
 static int form_case(int k)
 {
   using rkcommon::utility::Optional;
@@ -113,6 +113,9 @@ static int form_case(int k)
   case 5: { what = "Optional<string>::emplace(3, 'x')"; Optional<std::string> o; o.emplace(3, 'x'); got = o.has_value() ? *o : "empty"; want = std::string(3, 'x'); break; }
   case 6: { what = "Optional<vector<int>>(vector<int>(3, 7))"; Optional<VI> o(VI(3, 7)); got = o.has_value() ? show(*o) : "empty"; want = show(VI(3, 7)); break; }
   case 7: { what = "make_optional<int>(5)"; auto o = make_optional<int>(5); got = o.has_value() ? std::to_string(*o) : "empty"; want = "5"; break; }
+  case 9: { what = "Optional<long long>(2^53+1).value_or(0.0)"; Optional<long long> o(9007199254740993LL); long long r = o.value_or(0.0); got = std::to_string(r); want = "9007199254740993"; break; }
+  case 10: { what = "Optional<int>(2^24+1).value_or(0.5f)"; Optional<int> o(16777217); int r = o.value_or(0.5f); got = std::to_string(r); want = "16777217"; break; }
+  case 11: { what = "empty Optional<int>.value_or(7.9)"; Optional<int> o; int r = o.value_or(7.9); got = std::to_string(r); want = "7"; break; }
   default: { what = "make_optional<string>(\"abc\")"; auto o = make_optional<std::string>("abc"); got = o.has_value() ? *o : "empty"; want = "abc"; break; }
   }
   vr::stat("states");
@@ -122,7 +125,7 @@ static int form_case(int k)
   if (vr::replaying())
     printf("%s holds %s want %s\n", what.c_str(), got.c_str(), want.c_str());
   if (got != want) {
-    report("Optional|multi-argument construction does not build T(args...)|" + what.substr(0, what.find('(')), "form:" + std::to_string(k), what + " holds " + got + " want " + want);
+    report(std::string(k >= 9 && k <= 11 ? "Optional|value_or with a default of another arithmetic type|" : "Optional|multi-argument construction does not build T(args...)|") + what.substr(0, what.find('(')), "form:" + std::to_string(k), what + " holds " + got + " want " + want);
     return 1;
   }
   return 0;
